@@ -296,15 +296,16 @@ pub fn width_probes(ctx: &mut Ctx) {
                 ctx.check("width:var:int-key", &json!({"var": n - 1}), &Value::Array((0..n).map(|i| json!(i)).collect()));
             }
             "C12" => {
+                // key lists: de-duplicating the reported keys by linear search is a legitimate (quadratic)
+                // implementation - the library's missing_some does it, benign/B5 does it for missing - so the
+                // widths stay where a quadratic pass takes seconds, not minutes (a third of the class; an
+                // eighth in the unoptimised profiles)
+                let n = if ctx.profile.starts_with("dev") { n / 8 } else { n / 3 };
                 let keys: Vec<Value> = (0..n).map(|i| json!(format!("k{}", i))).collect();
                 let d = json!({"k0": 1, format!("k{}", n - 1): null, format!("k{}", n / 2): false});
                 ctx.check("width:missing", &json!({"missing": keys}), &d);
-                // missing_some de-duplicates the absent keys by linear search (quadratic in their number: ~2 s at
-                // 32769 keys, ~17 s at 100 000); that is slow, not a hang, so the widest classes are left to missing
-                if n <= 40_000 {
-                    ctx.check("width:missing_some", &json!({"missing_some": [3, keys]}), &d);
-                    ctx.check("width:missing_some:more", &json!({"missing_some": [4, keys]}), &d);
-                }
+                ctx.check("width:missing_some", &json!({"missing_some": [3, keys]}), &d);
+                ctx.check("width:missing_some:more", &json!({"missing_some": [4, keys]}), &d);
             }
             _ => {}
         }
